@@ -81,8 +81,28 @@ def run(tier):
             validated += got
             states += tr.distinct
             transitions += tr.generated
+        # the same runs against the per-message packet protocol (ProtoTrace.tla): a pair created for the message, both of its
+        # ends closed on every path - including sends that fail on their first fragment or later
+        import protocheck
+        pcompact = os.path.join(wd, name + ".proto.ndjson")
+        pevs, overflow = protocheck.convert(raw, pcompact, reset_events=("quiesce",))
+        pnote = "skipped"
+        if pevs and not overflow:
+            pr, preject = protocheck.validate(wd, name, pcompact)
+            require_ok(pr, "ProtoTrace " + name)
+            if pr.violation or preject:
+                rp = write_replay("C11", name + "-proto", {"property": "C11", "kind": "proto", "violation": pr.violation,
+                                                           "reject": preject})
+                violations.append({"what": "packet protocol [%s]: recorded system calls of a send/receive leave the protocol of "
+                                           "Transport.tla (socket pair of a message not closed on some path, follow-up elsewhere): %s %s" % (
+                                               name, pr.violation or "", (preject or "")[:300]), "replay": rp, "key": "proto"})
+                pnote = "REJECTED"
+            else:
+                states += pr.distinct
+                transitions += pr.generated
+                pnote = "%d events accepted" % len(pevs)
         if evs and len(samples) < 3:
-            samples.append({"plan": name, "events": len(evs), "head": evs[:8]})
+            samples.append({"plan": name, "events": len(evs), "head": evs[:8], "proto": pnote})
         os.remove(raw)
         log("  %s: %d behaviours with ledger (%d events), %d bad, ledger %s (%.1fs)" % (
             name, got, len(evs), nbad, "clean" if not tr.violation else why, time.time() - t0))
